@@ -313,6 +313,21 @@ static int run_conc(void) {
   return 0;
 }
 
+/* "r N d": N cycles of key create (destructor tag d) / key delete through the real allocator functions.
+   The free list is LIFO, so every cycle must hand out the same index: " r<k>x<N>"; " r-1" when no key is
+   free; " r!" when a cycle returns another index or the delete does not give back tag d. */
+static void cycles(long n, long d) {
+  long i; int k0 = -2, bad = 0;
+  if (G.ka.free == 0) { printf(" r-1"); return; }
+  k0 = (int)(G.ka.free - G.ka.keys);
+  for (i = 0; i < n; i++) {
+    int k = myth_tls_key_allocator_alloc(&G.ka, (myth_tls_destructor_fun_t)(uintptr_t)d);
+    if (k != k0) bad = 1;
+    if (k >= 0 && (long)(intptr_t)myth_tls_key_allocator_dealloc(&G.ka, k) != d) bad = 1;
+  }
+  if (bad) printf(" r!"); else printf(" r%dx%ld", k0, n);
+}
+
 /* ---------------- main ---------------- */
 #define MAXTREES 16
 int main(void) {
@@ -321,6 +336,12 @@ int main(void) {
     if (!strcmp(op, "variant")) {
       int a, b; if (scanf("%d %d", &a, &b) != 2) return 2;
       printf("variant %d %d\n", C10_GEN, C10_LOCK);
+    } else if (!strcmp(op, "widths")) {
+#if C10_GEN
+      printf("widths %d %d\n", (int)sizeof(((myth_tls_key_entry_t *)0)->gen), (int)sizeof(((myth_tls_entry_t *)0)->gen));
+#else
+      printf("widths 0 0\n");
+#endif
     } else if (!strcmp(op, "consts")) {
       printf("consts %d %d %d %d %d %d %d\n", myth_tls_tree_depth, myth_tls_tree_node_log_n_children,
              myth_tls_tree_node_log_n_entries_in_leaf, myth_tls_n_keys, (int)myth_tls_tree_node_sz_node,
@@ -336,6 +357,7 @@ int main(void) {
         if (o[0] == 's') { if (scanf("%d %lu", &k, &v) != 2) return 2; printf(" r%d", TREE_SET(t, k, (void *)v)); }
         else if (o[0] == 'g') { if (scanf("%d", &k) != 1) return 2; printf(" v%lu", (unsigned long)TREE_GET(t, k)); }
         else if (o[0] == 'b') { if (scanf("%d", &k) != 1) return 2; BUMP(k); printf(" b"); }
+        else if (o[0] == 'r') { long cnt; if (scanf("%d %ld", &k, &cnt) != 2) return 2; while (cnt-- > 0) BUMP(k); printf(" b"); }
         else if (o[0] == 'd') { printf(" "); dump_node(t, t->root, 0); }
         else return 2;
       }
@@ -358,6 +380,7 @@ int main(void) {
         if (with_ops && scanf("%7s", o) != 1) return 2;
         if (o[0] == 's') { if (scanf("%d %lu", &k, &v) != 2) return 2; TREE_SET(t, k, (void *)v); }
         else if (o[0] == 'b') { if (scanf("%d", &k) != 1) return 2; BUMP(k); }
+        else if (o[0] == 'r') { long cnt; if (scanf("%d %ld", &k, &cnt) != 2) return 2; while (cnt-- > 0) BUMP(k); }
         else return 2;
       }
       nmalloc = nblk; g_calls_len = 0; if (g_calls) g_calls[0] = 0; log_reset();
@@ -371,6 +394,7 @@ int main(void) {
       for (i = 0; i < n; i++) {
         char o[8]; long a;
         if (scanf("%7s %ld", o, &a) != 2) return 2;
+        if (o[0] == 'r') { long d; if (scanf("%ld", &d) != 1) return 2; cycles(a, d); continue; }
         if (o[0] == 'c') printf(" %d", myth_tls_key_allocator_alloc(&G.ka, (myth_tls_destructor_fun_t)(uintptr_t)a));
         else if (o[0] == 'x') printf(" %ld", (long)(intptr_t)myth_tls_key_allocator_dealloc(&G.ka, (int)a));
         else return 2;
@@ -385,7 +409,8 @@ int main(void) {
       for (i = 0; i < n; i++) {
         char o[8]; int t, k; long a; unsigned long v;
         if (scanf("%7s", o) != 1) return 2;
-        if (o[0] == 'c') { if (scanf("%ld", &a) != 1) return 2; printf(" %d", myth_tls_key_allocator_alloc(&G.ka, (myth_tls_destructor_fun_t)(uintptr_t)a)); }
+        if (o[0] == 'r') { long d; if (scanf("%ld %ld", &a, &d) != 2) return 2; cycles(a, d); }
+        else if (o[0] == 'c') { if (scanf("%ld", &a) != 1) return 2; printf(" %d", myth_tls_key_allocator_alloc(&G.ka, (myth_tls_destructor_fun_t)(uintptr_t)a)); }
         else if (o[0] == 'x') {
           if (scanf("%d", &k) != 1) return 2;
           printf(" %d", myth_tls_key_allocator_dealloc(&G.ka, k) == (myth_tls_destructor_fun_t)-1 ? EINVAL : 0);
